@@ -141,7 +141,7 @@ func (c Int32) POW(a, k Int32) Int32 {
 /* -------------------------------------------------------------------------- */
 func (c Int32) SQRT(a Int32) Int32 {
   x := a.GetFloat64()
-  c.SetFloat64(math.Sqrt(x))
+  c.SetFloat64(math.Pow(x, 0.5))
   return c
 }
 /* -------------------------------------------------------------------------- */
